@@ -23,6 +23,8 @@ type Builder struct {
 	n        int
 	events   *EventTable
 	notes    map[string]bool // abstraction notes (unsupported constructs)
+	termMode int             // >0: define() returns the term itself (evaluation under a quantifier)
+	freshInTermMode int
 }
 
 func NewBuilder(ev *EventTable) *Builder {
@@ -57,6 +59,9 @@ func q(name string) string {
 func (b *Builder) declConst(name, sort string) string {
 	qn := q(name)
 	if !b.declared[qn] {
+		if b.termMode > 0 {
+			b.freshInTermMode++
+		}
 		b.declared[qn] = true
 		b.decls = append(b.decls, fmt.Sprintf("(declare-const %s %s)", qn, sort))
 	}
@@ -83,6 +88,9 @@ func (b *Builder) assert(t string) { b.asserts = append(b.asserts, t) }
 
 // define introduces a fresh constant equal to term (keeps terms small).
 func (b *Builder) define(prefix, sort, term string) string {
+	if b.termMode > 0 {
+		return term
+	}
 	c := b.declConst(b.fresh(prefix), sort)
 	b.assert(fmt.Sprintf("(= %s %s)", c, term))
 	return c
